@@ -393,14 +393,22 @@ static uint64_t p2_count(int thorough) { return vh_scaled(thorough ? 300000 : 30
 static void p2_run(uint64_t idx, vh_rng_t * rng) {
     static vh_buf_t msg; vh_ctx_t * v; int nm = 1 + (int) vh_below(rng, 3), m, last_err = 0, partial = vh_chance(rng, 1, 5); scpi_bool_t ret; char key[96];
     static const struct { const char * t; int err; } ms[] = { { "NOOP", 0 }, { "NOOP 1", 1 }, { "CMD", 0 }, { "FOO", 1 }, { "NOOP;FOO", 1 }, { "FOO;NOOP", 1 }, { "$", 1 }, { "", 0 }, { "  NOOP ; NOOP", 0 }, { "CMD 1,,2", 1 } };
+    static int nerr_alone[10] = { -1, -1, -1, -1, -1, -1, -1, -1, -1, -1 };
     size_t bufsz = vh_chance(rng, 1, 4) ? 8 + vh_below(rng, 16) : 64; int executed = 0, overlong = 0, errs_before_overlong = 0, errs_all = 0;
     (void) idx;
     memset(&sig, 0, sizeof sig);
     vh_buf_reset(&msg);
     for (m = 0; m < nm; m++) {
         int k = (int) vh_below(rng, sizeof ms / sizeof ms[0]);
-        if (!overlong) { if (strlen(ms[k].t) + 1 >= bufsz) overlong = 1; else errs_before_overlong += ms[k].err; }
-        vh_buf_adds(&msg, ms[k].t); vh_buf_addc(&msg, '\n'); last_err = ms[k].err; errs_all += ms[k].err; executed++;
+        if (nerr_alone[k] < 0) { /* how many errors this message raises alone in a buffer that holds it (once per process) */
+            vh_ctx_t * a = vh_ctx_new(cmds, 64, 8, 64); char one[32]; size_t l = strlen(ms[k].t);
+            a->log_enabled = 0; a->sigs = &sig; a->nsigs = 1; memcpy(one, ms[k].t, l); one[l] = '\n';
+            vh_scribble_chunk_in_callbacks(0); vh_input(a, one, l + 1); vh_scribble_chunk_in_callbacks(1);
+            nerr_alone[k] = a->nerrs; vh_ctx_free(a);
+            if ((nerr_alone[k] != 0) != (ms[k].err != 0)) vh_violation("C05:input-return-value:message-table", "message %s alone raised %d errors, the table says %s", ms[k].t, nerr_alone[k], ms[k].err ? "some" : "none");
+        }
+        if (!overlong) { if (strlen(ms[k].t) + 1 >= bufsz) overlong = 1; else errs_before_overlong += nerr_alone[k]; }
+        vh_buf_adds(&msg, ms[k].t); vh_buf_addc(&msg, '\n'); last_err = ms[k].err; errs_all += nerr_alone[k]; executed++;
     }
     if (partial) vh_buf_adds(&msg, "NOOP 1"); /* unterminated tail: not executed by this call */
     vh_case_desc("input call %s", vh_esc(msg.p, msg.len));
@@ -411,14 +419,18 @@ static void p2_run(uint64_t idx, vh_rng_t * rng) {
          * partition (then no -363, and the last-message rule decides). A chunk with a message that cannot fit (overlong) must end in -363 and false,
          * after at most the errors of the messages in front of it. (round 7, benign change C01-H) */
         int refused, piecewise;
+        /* a library that takes the chunk over piecewise reads the caller's array again after callbacks have run: the array stays untouched here
+         * (the kit otherwise scribbles it inside the first callback, which is fair only for calls that fit - see C08) */
+        vh_scribble_chunk_in_callbacks(0);
         ret = vh_input(v, msg.p, msg.len);
+        vh_scribble_chunk_in_callbacks(1);
         refused = !ret && v->nerrs == 1 && v->errs[0] == -363;
         if (overlong) piecewise = !ret && v->nerrs == 1 + errs_before_overlong && v->errs[v->nerrs - 1] == -363;
         else { int i; piecewise = (ret ? 1 : 0) == !last_err && v->nerrs == errs_all; for (i = 0; i < v->nerrs; i++) if (v->errs[i] == -363) piecewise = 0; }
         if (refused) vh_count("clause.return_false_on_overrun", 1);
         else if (piecewise) vh_count(overlong ? "clause.return_false_on_overrun" : "return.oversize_chunk_taken_piecewise", 1);
         else if (ret && (overlong || (v->nerrs && v->errs[v->nerrs - 1] == -363))) vh_violation("C05:input-return-value:true-on-overrun", "chunk of %zu bytes into a %zu-byte buffer returned true (%d errors, last %d)", msg.len, bufsz, v->nerrs, v->nerrs ? v->errs[v->nerrs - 1] : 0);
-        else vh_violation("C05:overrun-error", "chunk of %zu bytes into a %zu-byte buffer returned %d and raised %d errors (first %d, last %d): neither refused as a whole (one -363, false) nor executed like a finer partition (%d errors, %s)", msg.len, bufsz, (int) ret, v->nerrs, v->nerrs ? v->errs[0] : 0, v->nerrs ? v->errs[v->nerrs - 1] : 0, overlong ? errs_before_overlong + 1 : errs_all, overlong || last_err ? "false" : "true");
+        else vh_violation("C05:overrun-error", "chunk %s of %zu bytes into a %zu-byte buffer returned %d and raised %d errors (first %d, last %d): neither refused as a whole (one -363, false) nor executed like a finer partition (%d errors, %s)", vh_esc(msg.p, msg.len), msg.len, bufsz, (int) ret, v->nerrs, v->nerrs ? v->errs[0] : 0, v->nerrs ? v->errs[v->nerrs - 1] : 0, overlong ? errs_before_overlong + 1 : errs_all, overlong || last_err ? "false" : "true");
     } else {
         ret = vh_input(v, msg.p, msg.len);
         if ((ret ? 1 : 0) != !last_err) { snprintf(key, sizeof key, "C05:input-return-value:multi-message:%s", ret ? "true-although-last-message-failed" : "false-although-last-message-succeeded"); vh_violation(key, "call %s returned %d; last executed message %s", vh_esc(msg.p, msg.len), (int) ret, last_err ? "raised an error" : "raised none"); }
